@@ -51,14 +51,14 @@ Inductive name_err := NeEmpty | NeForbidden (c : N) | NeInvalidFirst.
 Definition attr_name_check (n : bytes) : option name_err :=
   match n with
   | [] => Some NeEmpty
-  | _ => match find (fun c => is_ws c || (c =? 47)%N || (c =? 62)%N || (c =? 61)%N) n with
+  | _ => match find (fun c => existsb (N.eqb c) ATTR_NAME_FORBIDDEN) n with
          | Some c => Some (NeForbidden c) | None => None end
   end.
 Definition tag_name_check (n : bytes) : option name_err :=
   match n with
   | [] => Some NeEmpty
   | c :: _ => if negb (is_alpha c) then Some NeInvalidFirst
-              else match find (fun c => is_ws c || (c =? 47)%N || (c =? 62)%N) n with
+              else match find (fun c => existsb (N.eqb c) TAG_NAME_FORBIDDEN) n with
                    | Some c => Some (NeForbidden c) | None => None end
   end.
 Fixpoint has_infix (s needle : bytes) : bool :=
@@ -67,8 +67,9 @@ Fixpoint has_infix (s needle : bytes) : bool :=
   | _ :: r => bytes_eqb (firstn (length needle) s) needle && (length needle <=? length s) || has_infix r needle
   end.
 Definition starts_with (s p : bytes) : bool := bytes_eqb (firstn (length p) s) p && (length p <=? length s).
+(* the shapes are read from the source (gen/Constants.v) *)
 Definition comment_text_bad (t : bytes) : bool :=
-  has_infix t (bs "-->") || has_infix t (bs "--!>") || starts_with t (bs ">") || starts_with t (bs "->").
+  existsb (has_infix t) COMMENT_BAD_INFIX || existsb (starts_with t) COMMENT_BAD_PREFIX.
 
 Record start_tag := mkStT {
   stt_name : bytes; stt_attrs : list attr; stt_ns : ns; stt_sc : bool; stt_raw : option bytes (* None once modified *);
